@@ -99,3 +99,25 @@ def Ite(c, a, b):
     if isinstance(a, (int, SInt)) :
         return z3.If(zbool(c), zint(a), zint(b))
     return z3.If(zbool(c), a, b)
+
+
+def guarded(shape, key=None):
+    """Obligation builders must never crash the check: an Unsupported raised while post-processing the paths (a value of
+    a shape the builder was not written for, after the code changed) becomes an `unsupported` entry.
+    shape: "koi" -> (key, obs, info) | "oi" -> (obs, info) | "list" -> [(key, obs, info)]"""
+    def deco(fn):
+        def wrapper(*a, **k):
+            try:
+                return fn(*a, **k)
+            except Unsupported as e:
+                info = {"unsupported": [f"obligation builder {fn.__name__}: {e}"], "paths": 0, "scenarios": 0}
+                name = key or fn.__module__ + ":" + fn.__name__
+                if shape == "koi":
+                    return name, [], info
+                if shape == "oi":
+                    return [], info
+                return [(name, [], info)]
+        wrapper.__name__ = fn.__name__
+        wrapper.__doc__ = fn.__doc__
+        return wrapper
+    return deco
